@@ -1,0 +1,56 @@
+// SPDX-FileCopyrightText: 2023 The Pion community <https://pion.ly>
+// SPDX-License-Identifier: MIT
+
+//go:build verif
+
+package rtp
+
+import (
+	"sync/atomic"
+	"time"
+)
+
+// Verification hooks. This file is only compiled with the verif build tag and
+// adds observability for runtime monitors; it changes no behaviour.
+
+var verifYieldFn atomic.Value // func()
+
+// VerifSetYield installs (or, with nil, removes) a callback invoked at the
+// hook point inside NextSequenceNumber (between the increment and the
+// rollover test), to widen scheduling windows under test.
+func VerifSetYield(f func()) {
+	if f == nil {
+		f = func() {}
+	}
+	verifYieldFn.Store(f)
+}
+
+func verifYield() {
+	if f, ok := verifYieldFn.Load().(func()); ok {
+		f()
+	}
+}
+
+// VerifSetPacketizerClock replaces the clock the packetizer stamps
+// abs-send-time with. It reports false if p is not this package's packetizer.
+func VerifSetPacketizerClock(p Packetizer, clock func() time.Time) bool {
+	pp, ok := p.(*packetizer)
+	if !ok {
+		return false
+	}
+	pp.timegen = clock
+
+	return true
+}
+
+// VerifPacketizerTimestamp returns the packetizer's current RTP timestamp
+// (its initial value is random), so that monitors can check the first packet
+// too. It reports false if p is not this package's packetizer.
+func VerifPacketizerTimestamp(p Packetizer) (uint32, bool) {
+	pp, ok := p.(*packetizer)
+	if !ok {
+		return 0, false
+	}
+
+	return pp.Timestamp, true
+}
